@@ -61,6 +61,39 @@ def stop(k, prods):
         rl.in_toto_record_stop("st", list(prods), signer=k.signer, **STOP_KW)
 
 
+def sha_of(text):
+    import hashlib
+    return hashlib.sha256(text.encode()).hexdigest()
+
+
+def extras_for_model(kw):
+    """command / byproducts / environment in the driver's transport form (the environment as an opaque rendering)."""
+    out = {"command": list(kw.get("command") or [])}
+    out["byproducts"] = kw.get("byproducts") or None
+    out["environment"] = W.canon(kw["environment"]) if kw.get("environment") else None
+    return out
+
+
+def model_stop(prelim, key, prods, kw):
+    """The Lean `recordStop` on the abstract preliminary record: final link fields or the error class."""
+    return core.driver().call({"op": "record_stop", "key": key, "prelim": prelim, "given": extras_for_model(kw),
+                               "products": [[p, sha_of("product %s\n" % p)] for p in prods]})
+
+
+def link_fields(path):
+    """The same fields read from the link file in-toto wrote."""
+    from in_toto.models.metadata import Metadata
+    pl = Metadata.load(path).get_payload()
+    return {"materials": sorted([k, v["sha256"]] for k, v in pl.materials.items()),
+            "products": sorted([k, v["sha256"]] for k, v in pl.products.items()),
+            "extras": extras_for_model({"command": pl.command, "byproducts": pl.byproducts, "environment": pl.environment})}
+
+
+def model_fields(m):
+    return {"materials": sorted([k, v["digest"]] for k, v in m["materials"]),
+            "products": sorted([k, v["digest"]] for k, v in m["products"]), "extras": m["extras"]}
+
+
 def dir_state(root, k, prods):
     """Ground truth about the two files: (prelim, final) each in absent / complete / partial,
     'complete' meaning loadable, correctly signed, and with the right content."""
@@ -146,6 +179,13 @@ def one_history(rng, res):
         trace = list(st.trace)
         kinds = trace_kinds(trace, root, k.keyid[:8])
         final_len = os.path.getsize("st.%s.link" % k.keyid[:8])
+        # content of the final link: the Lean recordStop on (materials at start, key, products at stop, arguments)
+        ms = model_stop({"materials": [["m0", sha_of("material\n")]], "signer": k.keyid, "intact": True}, k.keyid, prods, STOP_KW)
+        impl_link = link_fields("st.%s.link" % k.keyid[:8])
+        ok_link = "ok" in ms and model_fields(ms["ok"]) == impl_link and ms["ok"]["signer"] == k.keyid
+        res.case({"desc": desc, "final_link": impl_link["extras"]}, bool(STOP_KW), ok_link, sample_cap=1)
+        if not ok_link:
+            res.fail("disagree", {"op": "record_stop", "desc": desc}, {"op": "record_stop", "impl": impl_link, "model": ms})
         m = core.driver().call({"op": "stop_crash", "n": nprod})
         model_ops = [o for o in m["ops"] if o != "writeFinal"]      # the write is not an audited event of its own
         agreed = kinds == model_ops
@@ -296,13 +336,20 @@ def tampered_prelim(rng, res):
             outcome = "ok"
         except Exception as e:  # pylint: disable=broad-except
             outcome = type(e).__name__
+            outcome_class = W.exc_class(e)
         after = sorted(os.listdir(root))
-        m = {"missing": "error", "edited": "error", "resigned": "error", "other_key_file": "error", "honest": "ok"}[how]
-        agreed = (outcome == "ok") == (m == "ok")
+        mats = [["m0", sha_of("material\n")]]
+        prelim = {"missing": None, "other_key_file": None,
+                  "edited": {"materials": mats, "signer": k.keyid, "intact": False},
+                  "resigned": {"materials": mats, "signer": other.keyid, "intact": True},
+                  "honest": {"materials": mats, "signer": k.keyid, "intact": True}}[how]
+        mm = model_stop(prelim, k.keyid, prods, {})
+        m = "ok" if "ok" in mm else mm["err"]
+        agreed = (outcome == "ok") == (m == "ok") and (outcome == "ok" or outcome_class == m)
         res.case({"prelim": how, "key": k.kind, "dsse": dsse, "outcome": outcome}, True, agreed, sample_cap=2)
         res.count("prelim_" + how)
-        if not agreed and outcome != "ok":
-            res.fail("disagree", {"op": "stop_tampered", "how": how}, {"op": "recordStop", "impl": outcome, "model": m})
+        if not agreed:
+            res.fail("disagree", {"op": "stop_tampered", "how": how}, {"op": "recordStop", "impl": outcome, "model": mm})
         if how != "honest":
             if outcome == "ok":
                 res.fail("oracle", {"op": "stop_tampered", "how": how, "key": k.kind, "dsse": dsse},
